@@ -92,6 +92,9 @@ def run(c, chk):
     lex = c.lex
     ambient_errno(c, chk)
     refused_include_leaves_nothing(c, chk)
+    # R8.9: the search path of the root outlives everything that happens to a section between two parses
+    chk.rule('R8.9', 'replacing or removing a section never releases the search path it only borrows from the root (the next parse would resolve names through a freed list)')
+    c07.searchpath_rule(c, chk_proxy(chk, {'R7.3': 'R8.9'}), sym.Explorer(c.modules, max_visits=2, mod_sets=c.mod_sets, max_paths=200000))
     from . import c16
     chk.rule('R8.8', 'the library writes only the state bits (reset, defaults-applied, modified, annotated) of an option\'s flag word: the declaration bits read the same in every later parse')
     c16.flag_words(c, chk, rid_opt='R8.8')
